@@ -203,6 +203,15 @@ def run (ctx):
   vc = [n_ for n_ in g.nodes if n_.kind == 'cond' and n_.ast is not None and 'OFP_VERSION' in norm(n_.ast)]
   body_ = g.loop_body_nodes(L.head)
   per_msg = [n_ for n_ in vc if n_ in body_ and any(isinstance(x_, ast.Subscript) and norm(x_.value) == L.buf and (norm(x_.slice) == (L.cur or '0')) for x_ in ast.walk(n_.ast))]
+  if not per_msg:
+    # the byte may be taken into a local first - inside the loop, from the cursor
+    def at_cursor (x_): return isinstance(x_, ast.Subscript) and norm(x_.value) == L.buf and norm(x_.slice) == (L.cur or '0')
+    for n_ in vc:
+      if n_ not in body_: continue
+      for nm_ in [x_ for x_ in ast.walk(n_.ast) if isinstance(x_, ast.Name) and isinstance(x_.ctx, ast.Load)]:
+        try: pv_ = q.provenance(g, n_, nm_.id)
+        except Exception: pv_ = []
+        if pv_ and all(d_ in body_ and val_ is not None and not isinstance(val_, tuple) and at_cursor(val_) for d_, kind_, val_ in pv_): per_msg.append(n_); break
   ctx.ob('R-ALL', f, "the protocol version of every framed message is examined", bool(per_msg), "version byte at the cursor, inside the framing loop" if per_msg else
          "the version test %s is not made per message at `%s[%s]`: a message with an unsupported version byte that is not the first in the receive buffer (coalesced into one segment with its predecessors) is decoded as OpenFlow 1.0 and acted upon "
          "instead of the connection being dropped" % ([norm(n_.ast)[:40] for n_ in vc][:1], L.buf, L.cur or '0'), (f.module, vc[0].ast) if vc else f, 'D2')
